@@ -12,11 +12,13 @@ RULE = ("the reference target compares the first two bytes of every connected da
         "(a repeat is also answered from its reply cache, like a real target).  Workloads: (a) histories of > 65 535 real connected requests on "
         "one connection so the 16-bit counter wraps inside real traffic - one request kind per shard {generic message, single read, multi-tag "
         "read, 2-/3-fragment read followed by single requests, fragmented write, bit writes, single writes, tag upload, a fragmented read during "
-        "which the target answers one fragment 'partial transfer' with zero value bytes}; (b) for every request "
+        "which the target answers one fragment 'partial transfer' with zero value bytes, a stand-alone read / write refused once with 0x04 / 0x05 "
+        "(instance addressing) followed by further requests}; (b) for every request "
         "kind the driver's counter is advanced to within +-12 of the wrap (by drawing values from it, the state a long history reaches) and "
         ">= 40 real requests are issued across the wrap, for every phase offset; (c) lifecycle histories incl. redundant open() / with-blocks on an "
         "open driver, with lost replies / resets (a resent frame would repeat its count); (d) bulk read()/write() calls of n requests for n around "
-        "every power of two up to 32 769 (many counts drawn between two frames, several multi-service packets back to back).  distinct = (request kind, phase offset | history, wrapped?) executed")
+        "every power of two up to 32 769 (many counts drawn between two frames, several multi-service packets back to back); (e) SLC histories of reads, writes, bit reads, get_datalog_queue, "
+        "get_processor_type, get_file_directory.  distinct = (request kind, phase offset | history, wrapped?) executed")
 ASSUMPTIONS = [
     "workload (b) uses the driver's `_sequence` generator to reach the pre-wrap state quickly; when that attribute is absent only (a) and (c) run",
     "one connection at a time; counts are compared per connection",
